@@ -62,8 +62,17 @@ def semantic_check(ctx, rng, cfg, d, raw, info, trials=6):
 def run(ctx):
     rng = ctx.rng
     cs = c07.cases(ctx, ctx.budget(500, 10000), multi_match=False, mixes=False, misuse=0.03, bool_ops=True)
-    for schema, cfg, d, r, raw in c07.run_cases(ctx, cs):
+    from .. import trees
+    hist = trees.SharedObjects(ctx, rng, "ElasticsearchQueryBuilder")
+    I = common.impl()
+    for ci, (schema, cfg, d, r, raw) in enumerate(c07.run_cases(ctx, cs)):
         ok = "ok" in r
+        if ci % 4 == 0:
+            # a long-lived builder that has just refused a query in the middle of a nested field group (and then sees
+            # near-identical trees) must translate like a fresh one: what a refused call leaves behind must not show
+            hist.check(repr(cfg), lambda: I.es.ElasticsearchQueryBuilder(**cfg),
+                       lambda bb, t: es.build(cfg, t, bb)[0], d, {"cfg": cfg, "tree": d},
+                       poison=[es.refused_in_nested(schema)] if schema else ())
         has = any(n["c"].endswith("Operation") or n["c"] in ("Not", "Prohibit", "SearchField")
                   for _, n in common.tree_nodes(d))
         ctx.case((repr(cfg), repr(common.strip_tree(d))), nontrivial=ok and has,
